@@ -139,7 +139,7 @@ class Context:
     current: "Context | None" = None
 
     def __init__(self, assumptions=(), prefix=(), feasible=None, max_decisions=64):
-        self.assumptions: list = list(assumptions)   # BoolT, hold on every path
+        self.assumptions: list = []                   # BoolT, hold on every path
         self.prefix = list(prefix)                    # forced decisions (bool) in order
         self.decisions: list = []                     # (BoolT, value) taken on this path
         self.known: dict = {}                         # BoolT.id -> value
@@ -148,6 +148,8 @@ class Context:
         self.feasible = feasible                      # callable(list[BoolT]) -> 'sat'|'unsat'|'unknown'
         self.max_decisions = max_decisions
         self.notes: list = []
+        for a in assumptions:
+            self.assume(a)
 
     # --- assumptions / definedness
     def assume(self, b):
@@ -161,6 +163,16 @@ class Context:
                 raise PathAbort()
             return
         self.assumptions.append(b)
+        if b.kind == "not":
+            self.known.setdefault(b.args[0].id, False)
+        elif b.kind == "and":
+            for a in b.args:
+                if a.kind == "not":
+                    self.known.setdefault(a.args[0].id, False)
+                else:
+                    self.known.setdefault(a.id, True)
+        else:
+            self.known.setdefault(b.id, True)
 
     def require(self, b: BoolT, why: str):
         """Record a definedness condition (denominator non-zero, ln argument positive ...)."""
@@ -560,22 +572,6 @@ def s_abs(x):
     return abs(x)
 
 
-def s_min(a, b):
-    ca, cb = concrete(a), concrete(b)
-    if ca is not None and cb is not None:
-        return ca if ca <= cb else cb
-    A, B = lift(a).p, lift(b).p
-    return simp(T.mkITE(T.b_le(A, B), A, B))
-
-
-def s_max(a, b):
-    ca, cb = concrete(a), concrete(b)
-    if ca is not None and cb is not None:
-        return ca if ca >= cb else cb
-    A, B = lift(a).p, lift(b).p
-    return simp(T.mkITE(T.b_le(B, A), A, B))
-
-
 def known_truth(node: BoolT):
     """Truth value of a condition already decided on the current path (or None)."""
     if node.kind == "const":
@@ -590,6 +586,30 @@ def known_truth(node: BoolT):
     if v is None:
         return None
     return v != neg
+
+
+def s_min(a, b):
+    ca, cb = concrete(a), concrete(b)
+    if ca is not None and cb is not None:
+        return ca if ca <= cb else cb
+    A, B = lift(a).p, lift(b).p
+    c = T.b_le(A, B)
+    k = known_truth(c)
+    if k is not None:
+        return a if k else b
+    return simp(T.mkITE(c, A, B))
+
+
+def s_max(a, b):
+    ca, cb = concrete(a), concrete(b)
+    if ca is not None and cb is not None:
+        return ca if ca >= cb else cb
+    A, B = lift(a).p, lift(b).p
+    c = T.b_le(B, A)
+    k = known_truth(c)
+    if k is not None:
+        return a if k else b
+    return simp(T.mkITE(c, A, B))
 
 
 def s_ite(cond, a, b):
